@@ -206,7 +206,17 @@ func APITraces(env Env) func(r *ev.Report) {
 
 			col, err := collapse(tr, calib)
 			if err != nil {
-				r.ToolError("trace conformance, scenario %s: %v", s.name, err)
+				// the tree under test calls a function of the field package that the calibration table does not
+				// know (a refactoring added one): the two builds cannot be compared call for call on this tree.
+				// That is a limit of the binding, not a verdict and not a failure of the machinery: the part
+				// reports itself incomplete and leaves a marker for the runner.
+				r.Incomplete(fmt.Sprintf("trace conformance not computable on this tree (scenario %s): %v", s.name, err))
+				r.Note("trace conformance skipped: %v", err)
+
+				if work := os.Getenv("VERIF_WORK"); work != "" {
+					_ = os.WriteFile(filepath.Join(work, "apitrace-"+verifrt.Variant+".skip"), []byte(err.Error()), 0o644)
+				}
+
 				return
 			}
 
